@@ -2,6 +2,7 @@ import SodiumModel.Driver.Common
 import SodiumModel.Model.Hash
 import SodiumModel.Model.Poly1305Donna
 import SodiumModel.Model.Poly1305Donna32  -- donna32
+import SodiumModel.Model.Poly1305Sse2
 import SodiumModel.Model.Utils
 import SodiumModel.Spec.Sha256
 import SodiumModel.Spec.Sha512
@@ -43,6 +44,33 @@ def polyDonna32Check (key : Bytes) (cs : List Bytes) (r : Bytes) : String :=
     else "MODEL-DISAGREE"
   else toHex r
 -- END donna32
+/-- two "prior contents" for the state that `poly1305_init_ext` only partly initialises (the
+    uninitialised stack variable of the one-shot function): all zero, and a junk pattern -/
+def sse2Junk0 : Poly1305Sse2.State :=
+  ⟨⟨0, 0, 0, 0, 0⟩, ⟨0, 0, 0, 0, 0⟩, ⟨0, 0, 0, 0, 0⟩, ⟨0, 0, 0, 0, 0⟩, (0, 0), 0, []⟩
+def sse2Junk1 : Poly1305Sse2.State :=
+  ⟨⟨0xdeadbeefdeadbeef, 0xffffffffffffffff, 2, 3, 0xffffffffffffffff⟩,
+   ⟨0xffffffff, 0xdeadbeef, 0xffffffff, 0xffffffff, 0xffffffff⟩,
+   ⟨0xffffffff, 0xffffffff, 0xdeadbeef, 0xffffffff, 0xffffffff⟩,
+   ⟨0xdeadbeef, 0xffffffff, 0xffffffff, 0xffffffff, 0xffffffff⟩, (5, 6), 0xffffffffffffffff, [1, 2, 3]⟩
+
+/-- `onetimeauth` cross-check: messages up to 1024 bytes are ALSO run through the SSE2-structured
+    model of poly1305_sse2.c (Model/Poly1305Sse2.lean: the implementation the library selects on
+    this host) — init/update/final in exactly the chunking of the op line and, for a single chunk,
+    the one-shot function as well (the C harness calls both), each from two different prior
+    contents of the state.  Any difference prints `MODEL-DISAGREE`.
+    Properties/C04PolySse2.lean proves all of them equal `Spec.Poly1305.mac` (`sse2_mac_eq_spec`,
+    `sse2_mac_chunks`), from every prior content of the state. -/
+def polyChunksCross (key : Bytes) (cs : List Bytes) : String :=
+  let r := polyChunksLimb key cs
+  if cs.foldl (fun n c => n + c.length) 0 ≤ 1024 then
+    let others :=
+      [Poly1305Sse2.macChunks sse2Junk0 key cs, Poly1305Sse2.macChunks sse2Junk1 key cs] ++
+      (match cs with
+       | [m] => [Poly1305Sse2.mac sse2Junk0 key m, Poly1305Sse2.mac sse2Junk1 key m]
+       | _ => [])
+    if others.all (· == r) then toHex r else "MODEL-DISAGREE"
+  else toHex r
 
 def b2ChunksWith (F : Blake2b.State → Bytes → Nat → Bool → Blake2b.State) (outlen : Nat)
     (key salt personal : Bytes) (cs : List Bytes) : String :=
@@ -94,7 +122,8 @@ def handle (op : String) (args : List String) : Option String :=
     | "hmacsha256" => some (verifyLine 32 tag (hmac H256 key msg))
     | "hmacsha512" => some (verifyLine 64 tag (hmac H512 key msg))
     | "hmacsha512256" => some (verifyLine 32 tag ((hmac H512 key msg).take 32))
-    | "poly1305" => some (verifyLine 16 tag (polyChunks key [msg]))
+    | "poly1305" => some (crossCheck (verifyLine 16 tag (polyChunks key [msg]))
+        (if msg.length ≤ 1024 then [verifyLine 16 tag (Poly1305Sse2.mac sse2Junk1 key msg)] else []))
     | _ => none
   | "generichash", outlen :: key :: salt :: personal :: cs => do
     some (b2Chunks (← parseNat? outlen) (← ofHex key) (← optHex salt) (← optHex personal) (← hexList cs))
@@ -103,8 +132,9 @@ def handle (op : String) (args : List String) : Option String :=
     if alg = "24" then some (toHex (C04Ref.siphash24 key msg)) else some (toHex (C04Ref.siphashx24 key msg))
   | "onetimeauth", key :: cs => do
     let key ← ofHex key; let cs ← hexList cs
-    -- BEGIN donna32
-    some (polyDonna32Check key cs (polyChunksLimb key cs))
+    -- SSE2-structured model (the backend this host selects) and, BEGIN donna32, the no-128-bit-integer model: all must agree with the donna64 limb model
+    let r := polyChunksCross key cs
+    some (if r == "MODEL-DISAGREE" then r else polyDonna32Check key cs (polyChunksLimb key cs))
     -- END donna32
   | "kdf.hkdf256.extract", salt :: cs => do some (toHex (hmacChunks H256 (← ofHex salt) (← hexList cs)))
   | "kdf.hkdf512.extract", salt :: cs => do some (toHex (hmacChunks H512 (← ofHex salt) (← hexList cs)))
